@@ -1423,6 +1423,8 @@ class WCS(GWCSAPIMixin):
             return result.T
 
         if axis_type != "all":
+            # a WCS with a single output axis returns a 1-D array of values
+            result = np.atleast_2d(result)
             axtyp_ind = np.array([t.lower() for t in self.output_frame.axes_type]) == axis_type
             if not axtyp_ind.any():
                 raise ValueError('This WCS does not have axis of type "{}".'.format(axis_type))
